@@ -246,6 +246,36 @@ def explicit_exits(an, f, reachable_only=True):
     return out
 
 
+# ------------------------------------------------- structural position
+def inside(container, node):
+    """node (an AST node or a CFG node) lies in the subtree of the AST node
+    `container`.  Position is decided on the tree, never on line numbers: an
+    inlined helper keeps the line numbers of its definition."""
+    a = getattr(node, 'ast', node)
+    ids = getattr(container, '_sub_ids', None)
+    if ids is None:
+        ids = {id(x) for x in ast.walk(container)}
+        container._sub_ids = ids
+    return id(a) in ids
+
+
+def order_of(f):
+    """Pre-order index of every node of f's own body (source order)."""
+    o = getattr(f, '_order', None)
+    if o is None:
+        o = {id(n): i for i, n in enumerate(walk_local(f.node))}
+        f._order = o
+    return o
+
+
+def before(f, a, b):
+    """a precedes b in the source order of f (AST or CFG nodes)."""
+    o = order_of(f)
+    ia = o.get(id(getattr(a, 'ast', a)))
+    ib = o.get(id(getattr(b, 'ast', b)))
+    return ia is not None and ib is not None and ia < ib
+
+
 # -------------------------------------------------- partial evaluation (EXH)
 class Unknown:
     pass
@@ -415,9 +445,23 @@ def norm_bool(expr):
     return ('atom', src(expr))
 
 
-def substitute_locals(f, expr, depth=3, stop=()):
+def is_access_path(e):
+    """A name, attribute chain or constant subscript of one: a value that
+    merely names something."""
+    if isinstance(e, ast.Name):
+        return True
+    if isinstance(e, ast.Attribute):
+        return is_access_path(e.value)
+    if isinstance(e, ast.Subscript):
+        return is_access_path(e.value) and isinstance(
+            e.slice, (ast.Constant, ast.Name))
+    return False
+
+
+def substitute_locals(f, expr, depth=3, stop=(), paths_only=False):
     """Replace local names that have exactly one binding in f by their
-    defining expression (bounded depth).  Returns a new AST."""
+    defining expression (bounded depth).  Returns a new AST.  paths_only:
+    only locals that cache an access path (x = a.b.c) are replaced."""
     if depth == 0:
         return expr
 
@@ -426,10 +470,126 @@ def substitute_locals(f, expr, depth=3, stop=()):
             if isinstance(node.ctx, ast.Load) and node.id not in stop and \
                     node.id not in f.params:
                 v = chained_assign_value(f, node.id)
-                if v is not None and not isinstance(v, (ast.Lambda,)):
+                if v is not None and not isinstance(v, (ast.Lambda,)) and \
+                        (not paths_only or is_access_path(v)):
                     import copy
                     return substitute_locals(f, copy.deepcopy(v), depth - 1,
-                                             stop)
+                                             stop, paths_only)
             return node
     import copy
     return T().visit(copy.deepcopy(expr))
+
+
+# ---------------------------------------------------------- string templates
+def string_template(e):
+    """Canonical form of an expression that builds a string from a constant
+    pattern: ('w/{}/{}', [hole expressions]) for
+        'w/{}/{}'.format(a, b)   'w/%s/%s' % (a, b)   f'w/{a}/{b}'
+        'w/' + a + '/' + b
+    None when e is not such an expression.  Holes are written {} ({!r} for a
+    repr conversion); the four spellings of one pattern compare equal."""
+    if isinstance(e, ast.Constant) and isinstance(e.value, str):
+        return e.value.replace('{', '{{').replace('}', '}}'), []
+    if isinstance(e, ast.JoinedStr):
+        fmt, holes = '', []
+        for v in e.values:
+            if isinstance(v, ast.Constant):
+                fmt += str(v.value).replace('{', '{{').replace('}', '}}')
+            elif isinstance(v, ast.FormattedValue):
+                if v.format_spec is not None:
+                    return None
+                fmt += '{!r}' if v.conversion == ord('r') else '{}'
+                holes.append(v.value)
+            else:
+                return None
+        return fmt, holes
+    if isinstance(e, ast.Call) and isinstance(e.func, ast.Attribute) and \
+            e.func.attr == 'format' and \
+            isinstance(e.func.value, ast.Constant) and \
+            isinstance(e.func.value.value, str):
+        import string
+        fmt, holes = '', []
+        auto = 0
+        kws = {k.arg: k.value for k in e.keywords if k.arg}
+        if any(isinstance(a, ast.Starred) for a in e.args) or \
+                any(k.arg is None for k in e.keywords):
+            return None
+        try:
+            parsed = list(string.Formatter().parse(e.func.value.value))
+        except ValueError:
+            return None
+        for lit, field, spec, conv in parsed:
+            fmt += lit.replace('{', '{{').replace('}', '}}')
+            if field is None:
+                continue
+            if spec:
+                return None
+            if field == '':
+                idx = auto
+                auto += 1
+                val = e.args[idx] if idx < len(e.args) else None
+            elif field.isdigit():
+                val = e.args[int(field)] if int(field) < len(e.args) \
+                    else None
+            elif field in kws:
+                val = kws[field]
+            else:
+                return None
+            if val is None:
+                return None
+            fmt += '{!r}' if conv == 'r' else '{}'
+            holes.append(val)
+        return fmt, holes
+    if isinstance(e, ast.BinOp) and isinstance(e.op, ast.Mod) and \
+            isinstance(e.left, ast.Constant) and \
+            isinstance(e.left.value, str):
+        import re as _re
+        vals = list(e.right.elts) if isinstance(e.right, ast.Tuple) \
+            else [e.right]
+        fmt, holes = '', []
+        pos = 0
+        text = e.left.value
+        for m in _re.finditer(r'%(%|[sdri])', text):
+            fmt += text[pos:m.start()].replace('{', '{{').replace('}', '}}')
+            pos = m.end()
+            if m.group(1) == '%':
+                fmt += '%'
+                continue
+            if not vals:
+                return None
+            fmt += '{!r}' if m.group(1) == 'r' else '{}'
+            holes.append(vals.pop(0))
+        fmt += text[pos:].replace('{', '{{').replace('}', '}}')
+        if vals or '%' in _re.sub(r'%(%|[sdri])', '', text):
+            return None
+        return fmt, holes
+    if isinstance(e, ast.BinOp) and isinstance(e.op, ast.Add):
+        a, b = string_template(e.left), string_template(e.right)
+        if a is None and b is None:
+            return None
+        if a is None:
+            a = ('{}', [e.left])
+        if b is None:
+            b = ('{}', [e.right])
+        return a[0] + b[0], a[1] + b[1]
+    return None
+
+
+def template_sites(f, pattern=None):
+    """[(node, fmt, holes)] for the string-building expressions in f's own
+    body whose pattern matches the regex `pattern` (outermost only)."""
+    import re as _re
+    out = []
+    skip = set()
+    for x in walk_local(f.node, include_root=False):
+        if id(x) in skip or not isinstance(x, (ast.JoinedStr, ast.Call,
+                                                 ast.BinOp)):
+            continue
+        t = string_template(x)
+        if t is None or not t[1]:
+            continue
+        for y in ast.walk(x):
+            skip.add(id(y))
+        if pattern is None or _re.search(pattern, t[0]):
+            out.append((x, t[0], t[1]))
+    return out
